@@ -2,7 +2,7 @@
 contracts/c11.py, and the fallback _validate_params_with_signature, which is NOT under contract) are compared with what
 CPython itself does when the call is made: every render signature built from a small grammar (0-2 positional-or-keyword
 parameters with / without default, *args, 0-1 keyword-only parameter with / without default, **kwargs) x every tag argument
-list up to a stated length over positional values and the keys a, b, k, z (declared / keyword-only / undeclared), repeated keys
+list up to a stated length over positional values and the keys a, b, k, z, args, kw, tmp (declared / keyword-only / undeclared / named like *args, **kw or a local variable of render), repeated keys
 included, x extra kwargs {} / {"data-z": 9} (extra kwargs are the non-identifier keys, which cannot collide with a tag keyword).  Oracle: the call `fn(node, ctx, <args in tag order>)` evaluated by CPython
 (positional after keyword and repeated keywords are TypeError, as in a Python call).
 """
@@ -37,7 +37,9 @@ def signatures():
                     yield ", ".join(parts)
 
 
-ATOMS = [(None, 1), (None, 2), ("a", 10), ("b", 20), ("k", 30), ("z", 40)]
+# keys: declared / keyword-only / undeclared, and the names of *args, **kw and of a local variable of render() (all three are
+# ordinary keywords for a Python call: they land in **kw or are a TypeError)
+ATOMS = [(None, 1), (None, 2), ("a", 10), ("b", 20), ("k", 30), ("z", 40), ("args", 50), ("kw", 60), ("tmp", 70)]
 
 
 def python_call(fn, params, extra):
@@ -74,7 +76,7 @@ def shard(job):
         if si % nshards != shard_no:
             continue
         ns = {}
-        exec(f"def render(self, context{', ' + sig if sig else ''}):\n    return dict(locals())", ns)
+        exec(f"def render(self, context{', ' + sig if sig else ''}):\n    tmp = None\n    del tmp\n    return dict(locals())", ns)
         fn = ns["render"]
         full = inspect.signature(fn)
         vsig = full.replace(parameters=list(full.parameters.values())[2:])
